@@ -266,7 +266,7 @@ def ExactDurableIfNotLonger (prog : Prog) : Prop :=
     (interp prog env s).2.1.h = none ∧
     syncedAtReturn (interp prog env s).2.2 = true
 
-/-- the open succeeds and the clean-up `unlink` is not made to fail -/
+/-- the open will succeed: `OpenFile` does not fail and nobody else holds a lock on the file -/
 def OpenOk (env : Env) : Bool := !env.openFault && env.otherLock == .none
 
 /-- failure leaves nothing under the name (given that the file could be opened and `unlink` works),
